@@ -130,6 +130,29 @@ func init() {
 			}
 			c.Add(Case{Req: dc.req(), Impl: t.String(), Tag: "canonical-names", NoSpec: true})
 		}
+		// the file and the 1-based line a ParseError names, decided by the statement itself: blank, comment-only and
+		// CRLF lines count, an error inside an included file names that file
+		for _, lc := range []struct {
+			root, inc string
+			file      string
+			line      int
+		}{
+			{"\n# c\nBOGUS\n", "", "root", 3},
+			{"ATTRIBUTE A 1 string\n\n\nATTRIBUTE A 2 string\n", "", "root", 4},
+			{"# x\r\n\r\nATTRIBUTE A 1 nosuchtype\r\n", "", "root", 3},
+			{"\n$INCLUDE inc\n", "# c\n\nBOGUS\n", "inc", 3},
+			{"\n\n$INCLUDE root\n", "", "root", 3},
+			{"ATTRIBUTE A 1 string\n   \n\t\n#\nVALUE A v notanumber\n", "", "root", 5},
+		} {
+			dc := &dictCase{rootName: "root", rootText: lc.root}
+			dc.files = append(dc.files, struct{ req, canon, text string }{"inc", "inc", lc.inc})
+			t, _, _, _ := runDictParse(dc)
+			want := fmt.Sprintf("b%x i%x", []byte(lc.file), lc.line)
+			if len(t.parts) < 4 || t.parts[0] != "i1" || t.parts[2]+" "+t.parts[3] != want {
+				c.Fail("spec", "Parse", "error-position", lc.root+"--- inc ---\n"+lc.inc, t.String(), "an error at "+want, "a ParseError names the file and the 1-based line of the offending directive")
+			}
+			c.Count("error-position", lc.root+lc.inc)
+		}
 		// texts
 		directives := []string{"ATTRIBUTE User-Name 1 string", "ATTRIBUTE Pw 2 octets encrypt=1", "VALUE User-Name a 1", "VENDOR Acme 99", "BEGIN-VENDOR Acme", "END-VENDOR Acme", "$INCLUDE inc", "# comment", "", "   ", "ATTRIBUTE X 300.1 octets[12] has_tag,encrypt=2", "VENDOR V2 100 format=2,1"}
 		for k := 0; k < c.N(1500, 40000); k++ {
@@ -166,6 +189,16 @@ func init() {
 						l = l + " # trailing comment"
 					case 4:
 						l = "  " + l
+					case 5: // fault: a field replaced by a token that stresses the field's own sub-parser
+						f := strings.Fields(l)
+						if len(f) > 2 {
+							f[len(f)-2] = r.PickS("1.", ".1", "1..2", ".", "", "1.x", "-1", "0x", "99999999999999999999", "1.2.3.4.5.6.7.8.9", "octets[", "octets[]", "octets[x]", "octets[-1]", "format=", "format=,", "format=1", "encrypt=", ",", ",,", "has_tag,")
+							l = strings.Join(f, " ")
+						}
+						if len(f) > 1 && r.Bool() {
+							f[len(f)-1] = r.PickS("1.", ".1", "1..2", ".", "1.x", "octets[", "octets[]", "octets[99999999999999999999]", "format=1,", "format=,1", "encrypt=x", "encrypt=", ",", "has_tag,,concat", "=")
+							l = strings.Join(f, " ")
+						}
 					}
 					ls = append(ls, l)
 				}
@@ -195,7 +228,7 @@ func init() {
 		}
 		c.Trivial("graph-empty", "text-arbitrary")
 		c.Flush()
-		c.RequireTags("graph-acyclic", "graph-cycle", "graph-empty", "canonical-names", "text-grammar", "text-grammar+ok", "text-long-line", "text-arbitrary")
+		c.RequireTags("graph-acyclic", "graph-cycle", "graph-empty", "canonical-names", "error-position", "text-grammar", "text-grammar+ok", "text-long-line", "text-arbitrary")
 	}
 }
 
